@@ -9,6 +9,12 @@ CHECKS = {
     design_ref="DESIGN.md section 5 C19",
     note="Trusted: Coq kernel + VM; hand-written model tied only by differential correspondence; vertices modelled as naturals; Python recursion limit not modelled.",
     technique="Coq proof over hand-written Gallina model + exhaustive/random correspondence (vm_compute) with the Python code"),
+ "C16": dict(
+    category="proof",
+    text="src/ir/context.py (Context and the module-level get_decl) is transliterated to Gallina (Context/Model.v: ordered dicts with Python's order semantics, the reverse index, the LIFO glob traversal). Properties_C16.v proves, for every finite history of add/remove/remove_namespace operations, that current-namespace queries return exactly the live bindings in insertion order, enclosing-scope queries return the innermost binding along the namespace path, global queries return the bindings of the namespaces reachable through recorded functions/classes, lookup returns the innermost truthy declaration, removal is local and falls through, and the reverse lookup is stable -- the live bindings being defined over the HISTORY (Context/Spec.v), not the state. Tie: correspondence on random operation histories with ~10 queries after every step, real Context vs model (vm_compute), plus a history-based reference judge of the implementation's answers.",
+    design_ref="DESIGN.md section 5 C16",
+    note="Trusted: Coq kernel + VM; hand-written model tied by differential correspondence on operation histories; names/values abstracted to naturals (identity up to Python ==).",
+    technique="Coq refinement proof (state machine -> history-based scoped-map spec) + correspondence on operation histories"),
 }
 
 NOT_APPLICABLE = {
@@ -16,7 +22,7 @@ NOT_APPLICABLE = {
  "C13": "The property is about CPython's pickle applied to ~40 IR classes; a Coq model would be a model of pickle and the only tie to the code would be the round-trip test itself (DESIGN.md section 6).",
 }
 
-PENDING = ["C01","C03","C04","C05","C06","C07","C08","C09","C10","C11","C12","C14","C15","C16","C17","C18"]
+PENDING = ["C01","C03","C04","C05","C06","C07","C08","C09","C10","C11","C12","C14","C15","C17","C18"]
 
 def main():
     checks = []
